@@ -10,6 +10,7 @@ import (
 	"github.com/smarthome-go/homescript/v3/homescript/compiler"
 	"github.com/smarthome-go/homescript/v3/homescript/interpreter"
 	hmsrt "github.com/smarthome-go/homescript/v3/homescript/runtime"
+	vmValue "github.com/smarthome-go/homescript/v3/homescript/runtime/value"
 )
 
 // The recorder behind the verif hooks of /repo.  Events are appended under one mutex, so their
@@ -117,9 +118,22 @@ func traceBegin(req *RunReq) *tracer {
 		}
 		if r.instr && len(r.events) < r.instrMax {
 			fr := c.CallStack[len(c.CallStack)-1]
-			r.add(map[string]any{"e": "I", "c": int64(c.Corenum), "f": fr.Function, "ip": fr.InstructionPointer,
+			ev := map[string]any{"e": "I", "c": int64(c.Corenum), "f": fr.Function, "ip": fr.InstructionPointer,
 				"op": i.Opcode().String(), "sh": len(c.Stack), "cs": len(c.CallStack), "mp": c.MemoryPointer,
-				"nh": len(c.ExceptionCatchLabels)})
+				"nh": len(c.ExceptionCatchLabels)}
+			switch x := i.(type) {
+			case compiler.OneIntInstruction:
+				ev["a"] = x.Value
+			case compiler.OneStringInstruction:
+				ev["s"] = x.Value
+			case compiler.OneIntOneStringInstruction:
+				ev["a"] = x.ValueInt
+			case compiler.ValueInstruction:
+				if iv, ok := x.Value.(vmValue.ValueInt); ok {
+					ev["a"] = iv.Inner
+				}
+			}
+			r.add(ev)
 		}
 		r.mu.Unlock()
 	}
